@@ -257,7 +257,7 @@ PROPS = {
     "C18": dict(
         module="OrbitModel.Properties.C18",
         theorems=["Orbit.C18.close_order_tied_to_go_text", "Orbit.C18.close_is_idempotent", "Orbit.C18.second_close_is_noop", "Orbit.C18.event_channel_always_shuts_down",
-                  "Orbit.C18.closed_only_when_done", "Orbit.C18.pinned_tree_leaks_goroutine", "Orbit.C18.watcher_closes_its_subscription_tied_to_go_text"],
+                  "Orbit.C18.closed_only_when_done", "Orbit.C18.pinned_tree_leaks_goroutine", "Orbit.C18.watcher_closes_its_subscription_tied_to_go_text", "Orbit.C18.close_mid_load_mid_replication_gets_through"],
         families=[("close", 80, 2000, 6), ("events", 30, 600, 6)],
         corr_fields={"afterclose", "values", "load"},
         nontrivial=lambda lines: any(l.startswith("closed ") for l in lines) or any(l.startswith("eclosed ") for l in lines),
